@@ -170,6 +170,27 @@ def traj_cases(draw, tier):
             'via': draw(st.sampled_from(['method', 'function'])), 'repeat': draw(st.sampled_from([None, None, 1.0, 1.7]))}
 
 
+@st.composite
+def crowded_cases(draw, tier):
+    """many atoms in one voxel over 100 - 1000 frames: voxel counts far above the number of frames and above the 8-bit range
+    (16-bit and wider ranges are reached by large-trajectories)"""
+    lat = draw(gen.lattices())
+    L = np.linalg.norm(np.array(lat['matrix']), axis=1)
+    res = float(L.min() / draw(st.sampled_from([1.0, 1.5, 2.0, 2.5, 3.2])))
+    T = draw(st.sampled_from([100, 127, 128, 129, 200, 254, 255, 256, 257, 300] + ([511, 512, 1000] if tier == 'thorough' else [])))
+    N = draw(st.integers(2, 6))
+    centre = [draw(st.sampled_from([0.1, 0.3, 0.6, 0.9])) for _ in range(3)]
+    stray = draw(st.integers(0, 3))  # a few samples elsewhere
+    t = np.arange(T).reshape(T, 1, 1)
+    a = np.arange(N).reshape(1, N, 1)
+    ax = np.arange(3).reshape(1, 1, 3)
+    coords = np.array(centre).reshape(1, 1, 3) + 0.01 * np.sin(0.37 * t + 1.3 * a + 2.1 * ax)  # deterministic jitter well inside the voxel
+    for k in range(stray):
+        coords[(7 * k + 3) % T, k % N] = [0.05 + 0.3 * k, 0.95 - 0.3 * k, 0.5]
+    return {'lattice': lat, 'coords': coords.tolist(), 'resolution': res, 'prelude': draw(st.lists(st.sampled_from(['positions']), max_size=1)),
+            'via': draw(st.sampled_from(['method', 'function'])), 'repeat': None}
+
+
 # ----------------------------------------------------------------------------- voxel round trip (complete enumeration)
 BLOCK = 32
 
@@ -449,6 +470,9 @@ SUBS = [
     Sub(name='trajectory-histogram', kind='hyp', run=run_traj, strategy=traj_cases,
         rule='1-4 (8) frames x 1-3 (5) atoms in all lattices; resolution free in (0.05 Lmin, Lmin] or aimed at a grid size (power of two for exact edges); coordinates uniform, exactly on voxel edges k/n, one ulp beside them, in the last voxel',
         n={'quick': 150, 'thorough': 2500}, shards={'quick': 10, 'thorough': 16}),
+    Sub(name='crowded-voxels', kind='hyp', run=run_traj, strategy=crowded_cases,
+        rule='2-6 atoms that stay in one voxel for 100 - 300 (1000) frames (frame counts around 128 and 256 included), coarse grids of 1-16 voxels per axis in all lattices, a few stray samples: voxel counts above the number of frames and above 8-bit ranges; same clauses as trajectory-histogram',
+        n={'quick': 12, 'thorough': 200}, shards={'quick': 6, 'thorough': 16}),
     Sub(name='voxel-roundtrip-enum', kind='enum', run=run_roundtrip, size=rt_size, case_at=rt_case, exhaustive=True,
         rule='complete enumeration: every voxel index v < d for every grid size d <= 4096 (quick) / 20000 (thorough) through the real Volume methods, size placed on each axis',
         shards={'quick': 16, 'thorough': 16}),
